@@ -21,9 +21,9 @@ BOUNDED = {
     "C12": "totals end to end against `collections.Counter`",
     "C13": "cross-check only",
     "C14": "dtype matrix",
-    "C15": "vector form of `_start_to_end` (run-length masks and start/stop windows end to end), `RunLengthRaggedArray.ravel`",
+    "C15": "end-to-end composition of the proved pieces (mask -> windows -> ragged run-length array -> ravel)",
     "C16": "`sum`, `mean`, `histogram` values",
-    "C17": "constructors, column ranges, column sums, `ravel`, `concatenate` (everything but dispatch / operand order / lock-step selection / reduction plumbing)",
+    "C17": "constructors (`from_array`, `from_ragged_array`, `from_intervals`), column ranges, column sums / counts / any, `concatenate`, `remove_empty_intervals` (ragged)",
     "C18": "cross-check only (number of fields / operands is unrolled 1..3, hence not claimed as proof)",
     "C19": "the C01-C09 stand-ins run under both widths and compared",
 }
